@@ -55,7 +55,7 @@ UNITS['cli'] = dict(fragments=PRE + [os.path.join(VF, 'prelude', 'cli.rs')] + T(
                     features=DEFAULT_FEATURES, threads=8, only_modules=['swiftness_cli::transform', 'swiftness_air::dynamic'])
 
 # "mid" layout units: the light unit plus validate_public_input / verify_public_input under the C14 / C18 contracts
-MID_LAYOUTS = ('dex', 'small', 'recursive_with_poseidon', 'starknet', 'starknet_with_keccak')
+MID_LAYOUTS = ('dex', 'small', 'recursive_with_poseidon', 'starknet', 'starknet_with_keccak', 'dynamic')   # dynamic: verify_public_input only
 for _l in MID_LAYOUTS:
     UNITS['layoutmid_' + _l] = dict(fragments=PRE + T('lemmas.rs', 'numth.rs', 'transcript.rs', 'pow.rs', 'commitment.rs', 'fri.rs', 'air.rs'),
                                     features={'std', 'keccak_160_lsb', 'keccak', 'stone5', 'mid_' + _l}, threads=4,
